@@ -1,51 +1,26 @@
-(* C08 (extension), part 3: insert / delete row and column (known finding C08-rowcol-raw-lines).
+(* C08 (extension), part 3: insert / delete row and column (finding C08-rowcol-raw-lines, repaired).
 
    The four records work on the raw `lines` vector (Vec::insert / remove at the caret row, per stored row insert / remove at
-   the caret column) and re-capture their payload.  What is true of them:
-     rowcol_exact_roundtrip   undoing the record from EXACTLY the state its redo produced succeeds and restores the document
-                              (and the stored shape, up to the rows `redo` itself materialised);
-   what is false:
-     rowcol_not_invariant     from a state that is equivalent (same cells everywhere) but stores its rows in another shape the
-                              undo panics — so the records are not sound in the sense the history theorem needs, and an
-                              operation in between that replaces `lines` by an equivalent vector breaks them. *)
+   the caret column) and re-capture their payload.  Since the fix commit their undo creates the rows / cells it needs
+   (`resize`) and treats a row that is not stored as an empty one, so that BOTH directions compute a function of the cells of
+   the layer (rawL) and of the cells of the payload only:
+
+     del_row_raw / ins_row_raw / del_col_raw / ins_col_raw / reins_col_raw    what each direction does to the cell at (x, y)
+     delrow_closed, insrow_closed, delcol_closed, inscol_stable               the record families are closed under undo / redo from
+                                                                              ANY equivalent state (what the history theorem needs)
+   Before the fix:
+     rowcol_before_fix_refuted_proof   from an equivalent state that stores its rows in another shape the OLD undo of DeleteRow
+                                       panics in Vec::insert (the new one restores the document). *)
 From Coq Require Import List ZArith NArith Bool Arith Lia.
 From IE Require Import Lib.C08Lib Gen.UndoGen Model.Undo Model.EditModel Model.EditOps Model.DocModel Model.DocOps
   Proofs.UndoProofs Proofs.LayerProofs Proofs.EditProofs Proofs.DocProofs.
 Import ListNotations.
 Local Open Scope Z_scope.
 
+Local Notation xlclosed := (lclosed xop_undo xop_redo xeqv).
+
 Lemma remove_at_ge {A} (l : list A) c : (length l <= c)%nat -> remove_at c l = l.
 Proof. intro H. unfold remove_at. rewrite firstn_all2 by exact H. rewrite skipn_all2 by lia. apply app_nil_r. Qed.
-
-Lemma remove_at_len {A} (l : list A) c : (c < length l)%nat -> length (remove_at c l) = (length l - 1)%nat.
-Proof. intro H. unfold remove_at. rewrite app_length, firstn_length, skipn_length. lia. Qed.
-
-(* DeleteColumn: putting the removed cells back gives exactly the old rows *)
-Lemma col_reinsert_delete c : forall lines, col_reinsert (Some c) (fst (col_delete (Some c) lines)) (snd (col_delete (Some c) lines)) = Ok lines.
-Proof.
-  induction lines as [|r lines IH]; [reflexivity|]. cbn [col_delete fst snd map col_reinsert] in *.
-  destruct (nth_error r c) as [ch|] eqn:E.
-  - assert (Hc : (c < length r)%nat) by (apply nth_error_Some; congruence).
-    unfold vec_insert. rewrite remove_at_len by exact Hc.
-    replace (c <=? length r - 1)%nat with true by (symmetry; apply Nat.leb_le; lia). cbn [bind].
-    rewrite insert_at_remove_at by exact E. rewrite IH. reflexivity.
-  - rewrite IH. cbn [bind]. apply nth_error_None in E. rewrite remove_at_ge by exact E. reflexivity.
-Qed.
-
-Lemma col_reinsert_delete_none : forall lines, col_reinsert None (fst (col_delete None lines)) (snd (col_delete None lines)) = Ok lines.
-Proof. induction lines as [|r lines IH]; [reflexivity|]. cbn [col_delete fst snd map col_reinsert] in *. rewrite IH. reflexivity. Qed.
-
-(* InsertColumn: removing the inserted cells gives exactly the old rows *)
-Lemma col_uninsert_insert c lines : col_uninsert c (col_insert c lines) = lines.
-Proof.
-  destruct c as [c|]; [|reflexivity]. cbn [col_uninsert col_insert]. rewrite map_map. rewrite <- (map_id lines) at 2. apply map_ext. intro r.
-  destruct (c <=? length r)%nat eqn:E.
-  - apply Nat.leb_le in E. apply remove_at_insert_at. exact E.
-  - apply Nat.leb_gt in E. apply remove_at_ge. lia.
-Qed.
-
-Lemma leqv_resize_rows L n : leqv (with_lines L (resize_to (l_lines L) n [])) L.
-Proof. split; [reflexivity|]. intros x y. unfold rawL. cbn [l_lines with_lines]. apply raw_resize_to. Qed.
 
 Lemma resize_to_nth {A} (l : list A) n d : exists a, nth_error (resize_to l (n + 1) d) n = Some a.
 Proof.
@@ -53,70 +28,470 @@ Proof.
   pose proof (resize_to_length l (n + 1) d). lia.
 Qed.
 
-Definition is_rowcol (o : xuop) : Prop :=
-  (exists i ln row, o = XDeleteRow i ln row) \/ (exists i ln row, o = XInsertRow i ln row) \/
-  (exists i col del, o = XDeleteColumn i col del) \/ (exists i col, o = XInsertColumn i col).
+(* ------------------------------------------------------------------ cells of spliced rows *)
+Lemma cell_at_nil x : cell_at [] x = invisible.
+Proof. unfold cell_at. destruct x; reflexivity. Qed.
 
-Lemma with_size_with_lines L v w h : with_size (with_lines L v) w h = with_lines (with_size L w h) v.
-Proof. reflexivity. Qed.
+Lemma cell_at_ge row x : (length row <= x)%nat -> cell_at row x = invisible.
+Proof. intro H. unfold cell_at. apply nth_error_None in H. rewrite H. reflexivity. Qed.
 
-(* redo, then undo from exactly the state reached: the document is restored *)
-Theorem rowcol_exact_roundtrip_proof : forall o a o1 b, is_rowcol o -> xop_redo o a = Ok (o1, b) ->
-  exists o2 a', xop_undo o1 b = Ok (o2, a') /\ xeqv a' a.
+Lemma cell_at_resize row c x : cell_at (resize_to row c invisible) x = cell_at row x.
+Proof. unfold resize_to. destruct (length row <? c)%nat; [apply cell_at_app_repeat|reflexivity]. Qed.
+
+Lemma cell_at_remove_at row c x : cell_at (remove_at c row) x = if (x <? c)%nat then cell_at row x else cell_at row (S x).
+Proof. unfold cell_at. rewrite nth_error_remove_at. destruct (x <? c)%nat; reflexivity. Qed.
+
+Lemma cell_at_insert_at row c ch x : (c <= length row)%nat ->
+  cell_at (insert_at c ch row) x = if (x <? c)%nat then cell_at row x else if (x =? c)%nat then ch else cell_at row (pred x).
+Proof. intro H. unfold cell_at. rewrite nth_error_insert_at by exact H. destruct (x <? c)%nat; [reflexivity|]. destruct (x =? c)%nat; reflexivity. Qed.
+
+Lemma raw_remove_at lines n x y : raw (remove_at n lines) x y = if (y <? n)%nat then raw lines x y else raw lines x (S y).
+Proof. rewrite !raw_cell_at, nth_error_remove_at. destruct (y <? n)%nat; reflexivity. Qed.
+
+Lemma raw_insert_at lines n row x y : (n <= length lines)%nat ->
+  raw (insert_at n row lines) x y = if (y <? n)%nat then raw lines x y else if (y =? n)%nat then cell_at row x else raw lines x (pred y).
 Proof.
-  intros o a o1 b Ho H.
-  destruct Ho as [(i & ln & row & ->)|[(i & ln & row & ->)|[(i & col & del & ->)|(i & col & ->)]]]; cbn [xop_redo] in H.
-  - (* DeleteRow *)
-    destruct (nth_error (xlayers a) i) as [L|] eqn:Hn; [|discriminate].
-    unfold as_index in H. destruct (ln <? 0) eqn:Eln; [discriminate|]. cbn [bind] in H.
-    set (n := Z.to_nat ln) in *. unfold vec_remove in H.
-    destruct (nth_error (resize_to (l_lines L) (n + 1) []) n) as [r|] eqn:Er; [|discriminate]. cbn [bind] in H. injection H as <- <-.
-    cbn [xop_undo]. unfold xlayers. cbn [xb with_xb]. rewrite (nth_upd_layer (xb a) i _ L Hn).
-    unfold as_index. rewrite Eln. cbn [bind]. fold n. unfold vec_insert. cbn [l_lines l_set_height with_size with_lines].
-    assert (Hlen : (n < length (resize_to (l_lines L) (n + 1) []))%nat) by (apply nth_error_Some; congruence).
-    rewrite remove_at_len by exact Hlen.
-    replace (n <=? length (resize_to (l_lines L) (n + 1) []) - 1)%nat with true by (symmetry; apply Nat.leb_le; lia). cbn [bind].
-    rewrite insert_at_remove_at by exact Er. eexists _, _. split; [reflexivity|].
-    rewrite xupd_twice. apply xeqv_upd_xlayer_id. intros L' HL'. assert (L' = L) by (unfold xlayers in *; congruence). subst L'.
-    cbn [l_h l_w l_set_height with_size with_lines]. replace (l_h L - 1 + 1) with (l_h L) by lia.
-    eapply leqv_trans; [|apply (leqv_resize_rows L (n + 1))]. destruct L; split; reflexivity.
-  - (* InsertRow *)
-    destruct (nth_error (xlayers a) i) as [L|] eqn:Hn; [|discriminate].
-    unfold as_index in H. destruct (ln <? 0) eqn:Eln; [discriminate|]. cbn [bind] in H.
-    set (n := Z.to_nat ln) in *. unfold vec_insert in H.
-    pose proof (resize_to_length (l_lines L) (n + 1) (@nil cell)) as Hlen.
-    replace (n <=? length (resize_to (l_lines L) (n + 1) []))%nat with true in H by (symmetry; apply Nat.leb_le; lia).
-    cbn [bind] in H. injection H as <- <-.
-    cbn [xop_undo]. unfold xlayers. cbn [xb with_xb]. rewrite (nth_upd_layer (xb a) i _ L Hn).
-    unfold as_index. rewrite Eln. cbn [bind]. fold n. unfold vec_remove. cbn [l_lines l_set_height with_size with_lines].
-    assert (Hnth : nth_error (insert_at n row (resize_to (l_lines L) (n + 1) [])) n = Some row).
-    { rewrite nth_error_insert_at by lia. rewrite Nat.ltb_irrefl, Nat.eqb_refl. reflexivity. }
-    rewrite Hnth. cbn [bind]. rewrite remove_at_insert_at by lia. eexists _, _. split; [reflexivity|].
-    rewrite xupd_twice. apply xeqv_upd_xlayer_id. intros L' HL'. assert (L' = L) by (unfold xlayers in *; congruence). subst L'.
-    cbn [l_h l_w l_set_height with_size with_lines]. replace (l_h L + 1 - 1) with (l_h L) by lia.
-    eapply leqv_trans; [|apply (leqv_resize_rows L (n + 1))]. destruct L; split; reflexivity.
-  - (* DeleteColumn *)
-    destruct (nth_error (xlayers a) i) as [L|] eqn:Hn; [|discriminate].
-    destruct (col_delete (col_index col) (l_lines L)) as [deleted lines] eqn:Ed. injection H as <- <-.
-    cbn [xop_undo]. unfold xlayers. cbn [xb with_xb]. rewrite (nth_upd_layer (xb a) i _ L Hn).
-    cbn [l_lines l_set_width with_size with_lines].
-    assert (Hre : col_reinsert (col_index col) deleted lines = Ok (l_lines L)).
-    { replace deleted with (fst (col_delete (col_index col) (l_lines L))) by (rewrite Ed; reflexivity).
-      replace lines with (snd (col_delete (col_index col) (l_lines L))) by (rewrite Ed; reflexivity).
-      destruct (col_index col); [apply col_reinsert_delete|apply col_reinsert_delete_none]. }
-    rewrite Hre. cbn [bind]. eexists _, _. split; [reflexivity|].
-    rewrite xupd_twice. apply xeqv_upd_xlayer_id. intros L' HL'. assert (L' = L) by (unfold xlayers in *; congruence). subst L'.
-    cbn [l_h l_w l_set_width with_size with_lines]. replace (l_w L - 1 + 1) with (l_w L) by lia. destruct L; split; reflexivity.
-  - (* InsertColumn *)
-    destruct (nth_error (xlayers a) i) as [L|] eqn:Hn; [|discriminate]. injection H as <- <-.
-    cbn [xop_undo]. unfold xlayers. cbn [xb with_xb]. rewrite (nth_upd_layer (xb a) i _ L Hn).
-    cbn [l_lines l_set_width with_size with_lines]. rewrite col_uninsert_insert. eexists _, _. split; [reflexivity|].
-    rewrite xupd_twice. apply xeqv_upd_xlayer_id. intros L' HL'. assert (L' = L) by (unfold xlayers in *; congruence). subst L'.
-    cbn [l_h l_w l_set_width with_size with_lines]. replace (l_w L + 1 - 1) with (l_w L) by lia. destruct L; split; reflexivity.
+  intro H. rewrite !raw_cell_at, nth_error_insert_at by exact H. destruct (y <? n)%nat; [reflexivity|]. destruct (y =? n)%nat; reflexivity.
 Qed.
 
-(* ... but not from an equivalent state of another stored shape.  a: a 3x3 layer whose three rows are stored; delete row 1 gives b;
-   t stores no rows beyond the first but holds the same cells as b (rows 1.. of b are invisible): undo panics in Vec::insert *)
+(* ------------------------------------------------------------------ rows *)
+(* DeleteRow::redo (rows up to the deleted one are created first) and InsertRow::undo (a row that is not stored is empty) *)
+Definition del_row (n : nat) (L : layer) : layer := l_set_height (with_lines L (remove_at n (resize_to (l_lines L) (n + 1) []))) (l_h L - 1).
+Definition del_row0 (n : nat) (L : layer) : layer := l_set_height (with_lines L (remove_at n (l_lines L))) (l_h L - 1).
+(* DeleteRow::undo (rows above are created first) and InsertRow::redo (rows up to the inserted one are created first) *)
+Definition ins_row (n : nat) (row : line) (L : layer) : layer := l_set_height (with_lines L (insert_at n row (resize_to (l_lines L) n []))) (l_h L + 1).
+Definition ins_row1 (n : nat) (row : line) (L : layer) : layer := l_set_height (with_lines L (insert_at n row (resize_to (l_lines L) (n + 1) []))) (l_h L + 1).
+
+Lemma del_row_raw n L x y : rawL (del_row n L) x y = if (y <? n)%nat then rawL L x y else rawL L x (S y).
+Proof. unfold del_row, rawL. cbn [l_lines l_set_height with_size with_lines]. rewrite raw_remove_at, !raw_resize_to. reflexivity. Qed.
+Lemma del_row0_raw n L x y : rawL (del_row0 n L) x y = if (y <? n)%nat then rawL L x y else rawL L x (S y).
+Proof. unfold del_row0, rawL. cbn [l_lines l_set_height with_size with_lines]. apply raw_remove_at. Qed.
+Lemma ins_row_raw n row L x y :
+  rawL (ins_row n row L) x y = if (y <? n)%nat then rawL L x y else if (y =? n)%nat then cell_at row x else rawL L x (pred y).
+Proof.
+  unfold ins_row, rawL. cbn [l_lines l_set_height with_size with_lines].
+  rewrite raw_insert_at by apply resize_to_length. rewrite !raw_resize_to. reflexivity.
+Qed.
+Lemma ins_row1_raw n row L x y :
+  rawL (ins_row1 n row L) x y = if (y <? n)%nat then rawL L x y else if (y =? n)%nat then cell_at row x else rawL L x (pred y).
+Proof.
+  unfold ins_row1, rawL. cbn [l_lines l_set_height with_size with_lines].
+  rewrite raw_insert_at by (pose proof (resize_to_length (l_lines L) (n + 1) (@nil cell)); lia). rewrite !raw_resize_to. reflexivity.
+Qed.
+
+Definition meta_h (L : layer) (h : Z) :=
+  (l_role L, l_visible L, l_locked L, l_pos_locked L, l_alpha_locked L, l_has_alpha L, l_mode L, l_ox L, l_oy L, l_w L, h, l_title L).
+Definition meta_w (L : layer) (w : Z) :=
+  (l_role L, l_visible L, l_locked L, l_pos_locked L, l_alpha_locked L, l_has_alpha L, l_mode L, l_ox L, l_oy L, w, l_h L, l_title L).
+
+Lemma meta_h_eq L1 L2 h1 h2 : meta L1 = meta L2 -> h1 = h2 -> meta_h L1 h1 = meta_h L2 h2.
+Proof. intros H ->. apply meta_fields in H. destruct H as (H1&H2&H3&H4&H5&H6&H7&H8&H9&H10&H11&H12). unfold meta_h. congruence. Qed.
+Lemma meta_w_eq L1 L2 w1 w2 : meta L1 = meta L2 -> w1 = w2 -> meta_w L1 w1 = meta_w L2 w2.
+Proof. intros H ->. apply meta_fields in H. destruct H as (H1&H2&H3&H4&H5&H6&H7&H8&H9&H10&H11&H12). unfold meta_w. congruence. Qed.
+Lemma meta_h_id L : meta_h L (l_h L) = meta L.
+Proof. reflexivity. Qed.
+Lemma meta_w_id L : meta_w L (l_w L) = meta L.
+Proof. reflexivity. Qed.
+Lemma meta_hh L : l_h L = match meta L with (_, _, _, _, _, _, _, _, _, _, h, _) => h end.
+Proof. reflexivity. Qed.
+Lemma meta_l_h L1 L2 : meta L1 = meta L2 -> l_h L1 = l_h L2.
+Proof. intro H. apply meta_fields in H. tauto. Qed.
+Lemma meta_l_w L1 L2 : meta L1 = meta L2 -> l_w L1 = l_w L2.
+Proof. intro H. apply meta_fields in H. tauto. Qed.
+
+Lemma del_row_meta n L : meta (del_row n L) = meta_h L (l_h L - 1).
+Proof. reflexivity. Qed.
+Lemma del_row0_meta n L : meta (del_row0 n L) = meta_h L (l_h L - 1).
+Proof. reflexivity. Qed.
+Lemma ins_row_meta n row L : meta (ins_row n row L) = meta_h L (l_h L + 1).
+Proof. reflexivity. Qed.
+Lemma ins_row1_meta n row L : meta (ins_row1 n row L) = meta_h L (l_h L + 1).
+Proof. reflexivity. Qed.
+
+Lemma del_row_leqv n L1 L2 : leqv L1 L2 -> leqv (del_row n L1) (del_row0 n L2).
+Proof.
+  intros [Hm Hr]. split.
+  - rewrite del_row_meta, del_row0_meta. apply meta_h_eq; [exact Hm|]. rewrite (meta_l_h _ _ Hm). reflexivity.
+  - intros x y. rewrite del_row_raw, del_row0_raw, !Hr. reflexivity.
+Qed.
+Lemma del_row0_leqv n L1 L2 : leqv L1 L2 -> leqv (del_row0 n L1) (del_row0 n L2).
+Proof.
+  intros [Hm Hr]. split.
+  - rewrite !del_row0_meta. apply meta_h_eq; [exact Hm|]. rewrite (meta_l_h _ _ Hm). reflexivity.
+  - intros x y. rewrite !del_row0_raw, !Hr. reflexivity.
+Qed.
+Lemma ins_row_leqv n r1 r2 L1 L2 : leqv L1 L2 -> (forall x, cell_at r1 x = cell_at r2 x) -> leqv (ins_row n r1 L1) (ins_row n r2 L2).
+Proof.
+  intros [Hm Hr] Hc. split.
+  - rewrite !ins_row_meta. apply meta_h_eq; [exact Hm|]. rewrite (meta_l_h _ _ Hm). reflexivity.
+  - intros x y. rewrite !ins_row_raw, !Hr, Hc. reflexivity.
+Qed.
+Lemma ins_row1_leqv n r1 r2 L1 L2 : leqv L1 L2 -> (forall x, cell_at r1 x = cell_at r2 x) -> leqv (ins_row1 n r1 L1) (ins_row n r2 L2).
+Proof.
+  intros [Hm Hr] Hc. split.
+  - rewrite ins_row1_meta, ins_row_meta. apply meta_h_eq; [exact Hm|]. rewrite (meta_l_h _ _ Hm). reflexivity.
+  - intros x y. rewrite ins_row1_raw, ins_row_raw, !Hr, Hc. reflexivity.
+Qed.
+
+(* the two round trips *)
+Lemma ins_del_row n row L : (forall x, cell_at row x = rawL L x n) -> leqv (ins_row n row (del_row0 n L)) L.
+Proof.
+  intro Hrow. split.
+  - destruct L. unfold meta. cbn. repeat f_equal; lia.
+  - intros x y. rewrite ins_row_raw, !del_row0_raw. destruct (y <? n)%nat eqn:E1; [reflexivity|]. apply Nat.ltb_ge in E1.
+    destruct (y =? n)%nat eqn:E2; [apply Nat.eqb_eq in E2; subst y; apply Hrow|]. apply Nat.eqb_neq in E2.
+    replace (pred y <? n)%nat with false by (symmetry; apply Nat.ltb_ge; lia). f_equal. lia.
+Qed.
+Lemma del_ins_row n row L : leqv (del_row0 n (ins_row n row L)) L.
+Proof.
+  split.
+  - destruct L. unfold meta. cbn. repeat f_equal; lia.
+  - intros x y. rewrite del_row0_raw, !ins_row_raw. destruct (y <? n)%nat eqn:E1; [reflexivity|]. apply Nat.ltb_ge in E1.
+    replace (S y <? n)%nat with false by (symmetry; apply Nat.ltb_ge; lia).
+    replace (S y =? n)%nat with false by (symmetry; apply Nat.eqb_neq; lia). reflexivity.
+Qed.
+
+Lemma as_index_ok ln : 0 <= ln -> as_index ln = Ok (Z.to_nat ln).
+Proof. intro H. unfold as_index. replace (ln <? 0) with false by (symmetry; apply Z.ltb_ge; exact H). reflexivity. Qed.
+Lemma col_index_ok ln : 0 <= ln -> col_index ln = Some (Z.to_nat ln).
+Proof. intro H. unfold col_index. replace (ln <? 0) with false by (symmetry; apply Z.ltb_ge; exact H). reflexivity. Qed.
+
+Lemma vec_remove_resized (lines : list line) n :
+  exists r, vec_remove n (resize_to lines (n + 1) []) = Ok (r, remove_at n (resize_to lines (n + 1) [])) /\ forall x, cell_at r x = raw lines x n.
+Proof.
+  destruct (resize_to_nth lines n (@nil cell)) as (r & Hr). exists r. unfold vec_remove. rewrite Hr. split; [reflexivity|].
+  intro x. rewrite <- (raw_resize_to lines (n + 1) x n). unfold raw, cell_at. unfold line in *. rewrite Hr. reflexivity.
+Qed.
+
+Lemma uninsert_pair (lines : list line) n :
+  exists r, (match nth_error lines n with Some r => (r, remove_at n lines) | None => ([], lines) end) = (r, remove_at n lines) /\
+            forall x, cell_at r x = raw lines x n.
+Proof.
+  destruct (nth_error lines n) as [r|] eqn:E.
+  - exists r. split; [reflexivity|]. intro x. rewrite raw_cell_at, E. reflexivity.
+  - exists []. split; [rewrite remove_at_ge by (apply nth_error_None; exact E); reflexivity|]. intro x. rewrite raw_cell_at, E. apply cell_at_nil.
+Qed.
+
+Definition upd_x (s : xstate) (i : nat) (f : layer -> layer) : xstate := with_xb s (upd_layer (xb s) i f).
+
+Lemma upd_x_const s i (f : layer -> layer) L : nth_error (xlayers s) i = Some L -> upd_x s i (fun _ => f L) = upd_x s i f.
+Proof. apply xupd_const. Qed.
+Lemma upd_x_twice a i f g : upd_x (upd_x a i g) i f = upd_x a i (fun L => f (g L)).
+Proof. apply xupd_twice. Qed.
+Lemma upd_x_has s i f L : nth_error (xlayers s) i = Some L -> nth_error (xlayers (upd_x s i f)) i = Some (f L).
+Proof. intro H. exact (nth_upd_layer (xb s) i f L H). Qed.
+
+(* DeleteRow: the deleted row travels between payload and document *)
+Definition U_delrow (o : xuop) (a b : xstate) : Prop :=
+  exists i ln row L, o = XDeleteRow i ln row /\ 0 <= ln /\ nth_error (xlayers a) i = Some L /\
+    (forall x, cell_at row x = rawL L x (Z.to_nat ln)) /\ xeqv b (upd_x a i (del_row0 (Z.to_nat ln))).
+Definition R_delrow (o : xuop) (a b : xstate) : Prop :=
+  exists i ln pay L, o = XDeleteRow i ln pay /\ 0 <= ln /\ nth_error (xlayers a) i = Some L /\ xeqv b (upd_x a i (del_row0 (Z.to_nat ln))).
+
+Lemma delrow_closed : xlclosed U_delrow R_delrow.
+Proof.
+  split.
+  - intros o a b (i & ln & row & L & -> & Hln & Hn & Hrow & Hb) t Ht. set (n := Z.to_nat ln) in *.
+    pose proof (xeqv_trans _ _ _ Ht Hb) as Htb.
+    destruct (xeqv_has_layer t _ i _ Htb (upd_x_has a i _ L Hn)) as (Lt & Hnt & _).
+    cbn [xop_undo]. rewrite Hnt, (as_index_ok ln Hln). cbn [bind]. fold n. unfold vec_insert.
+    replace (n <=? length (resize_to (l_lines Lt) n []))%nat with true by (symmetry; apply Nat.leb_le; apply resize_to_length).
+    cbn [bind]. eexists _, _. split; [reflexivity|]. split.
+    + change (xeqv (upd_x t i (fun _ => ins_row n row Lt)) a). rewrite (upd_x_const t i (ins_row n row) Lt Hnt).
+      eapply xeqv_trans; [apply (xeqv_upd_xlayer _ _ i _ (ins_row n row) Htb); intros L1 L2 HL; apply ins_row_leqv; [exact HL|reflexivity]|].
+      fold (upd_x (upd_x a i (del_row0 n)) i (ins_row n row)). rewrite upd_x_twice. apply xeqv_upd_xlayer_id.
+      intros L' HL'. assert (L' = L) by (unfold xlayers in *; congruence). subst L'. apply ins_del_row. exact Hrow.
+    + exists i, ln, [], L. auto.
+  - intros o a b (i & ln & pay & L & -> & Hln & Hn & Hb) t Ht. set (n := Z.to_nat ln) in *.
+    destruct (xeqv_has_layer t _ i _ Ht Hn) as (Lt & Hnt & HLt).
+    cbn [xop_redo]. rewrite Hnt, (as_index_ok ln Hln). cbn [bind]. fold n.
+    destruct (vec_remove_resized (l_lines Lt) n) as (r & Er & Hr). rewrite Er. cbn [bind].
+    eexists _, _. split; [reflexivity|]. split.
+    + change (xeqv (upd_x t i (fun _ => del_row n Lt)) b). rewrite (upd_x_const t i (del_row n) Lt Hnt).
+      eapply xeqv_trans; [|apply xeqv_sym; exact Hb]. apply xeqv_upd_xlayer; [exact Ht|]. intros L1 L2 HL. apply del_row_leqv. exact HL.
+    + exists i, ln, r, L. split; [reflexivity|]. split; [exact Hln|]. split; [exact Hn|]. split; [|exact Hb].
+      intro x. rewrite Hr. fold n. destruct HLt as [_ HR]. apply HR.
+Qed.
+
+(* InsertRow: the inserted row (empty at first) travels between payload and document *)
+Definition U_insrow (o : xuop) (a b : xstate) : Prop :=
+  exists i ln pay row L, o = XInsertRow i ln pay /\ 0 <= ln /\ nth_error (xlayers a) i = Some L /\ xeqv b (upd_x a i (ins_row (Z.to_nat ln) row)).
+Definition R_insrow (o : xuop) (a b : xstate) : Prop :=
+  exists i ln row L, o = XInsertRow i ln row /\ 0 <= ln /\ nth_error (xlayers a) i = Some L /\ xeqv b (upd_x a i (ins_row (Z.to_nat ln) row)).
+
+Lemma insrow_closed : xlclosed U_insrow R_insrow.
+Proof.
+  split.
+  - intros o a b (i & ln & pay & row & L & -> & Hln & Hn & Hb) t Ht. set (n := Z.to_nat ln) in *.
+    pose proof (xeqv_trans _ _ _ Ht Hb) as Htb.
+    destruct (xeqv_has_layer t _ i _ Htb (upd_x_has a i _ L Hn)) as (Lt & Hnt & HLt).
+    cbn [xop_undo]. rewrite Hnt, (col_index_ok ln Hln). fold n.
+    destruct (uninsert_pair (l_lines Lt) n) as (r & Er & Hr). rewrite Er.
+    eexists _, _. split; [reflexivity|]. split.
+    + change (xeqv (upd_x t i (fun _ => del_row0 n Lt)) a). rewrite (upd_x_const t i (del_row0 n) Lt Hnt).
+      eapply xeqv_trans; [apply (xeqv_upd_xlayer _ _ i _ (del_row0 n) Htb); intros L1 L2 HL; apply del_row0_leqv; exact HL|].
+      fold (upd_x (upd_x a i (ins_row n row)) i (del_row0 n)). rewrite upd_x_twice. apply xeqv_upd_xlayer_id.
+      intros L' _. apply del_ins_row.
+    + exists i, ln, r, L. split; [reflexivity|]. split; [exact Hln|]. split; [exact Hn|].
+      eapply xeqv_trans; [exact Hb|]. apply xeqv_upd_xlayer; [apply xeqv_refl|]. intros L1 L2 HL. apply ins_row_leqv; [exact HL|].
+      intro x. rewrite Hr. destruct HLt as [_ HR]. fold (rawL Lt x n). rewrite HR, ins_row_raw, Nat.ltb_irrefl, Nat.eqb_refl. reflexivity.
+  - intros o a b (i & ln & row & L & -> & Hln & Hn & Hb) t Ht. set (n := Z.to_nat ln) in *.
+    destruct (xeqv_has_layer t _ i _ Ht Hn) as (Lt & Hnt & HLt).
+    cbn [xop_redo]. rewrite Hnt, (as_index_ok ln Hln). cbn [bind]. fold n. unfold vec_insert.
+    replace (n <=? length (resize_to (l_lines Lt) (n + 1) []))%nat with true
+      by (symmetry; apply Nat.leb_le; pose proof (resize_to_length (l_lines Lt) (n + 1) (@nil cell)); lia).
+    cbn [bind]. eexists _, _. split; [reflexivity|]. split.
+    + change (xeqv (upd_x t i (fun _ => ins_row1 n row Lt)) b). rewrite (upd_x_const t i (ins_row1 n row) Lt Hnt).
+      eapply xeqv_trans; [|apply xeqv_sym; exact Hb]. apply xeqv_upd_xlayer; [exact Ht|]. intros L1 L2 HL. apply ins_row1_leqv; [exact HL|reflexivity].
+    + exists i, ln, [], row, L. auto.
+Qed.
+
+(* ------------------------------------------------------------------ columns *)
+Lemma snd_col_delete col lines : snd (col_delete col lines) = col_uninsert col lines.
+Proof. destruct col; reflexivity. Qed.
+
+Definition del_col (col : option nat) (L : layer) : layer := l_set_width (with_lines L (col_uninsert col (l_lines L))) (l_w L - 1).
+Definition ins_col (col : option nat) (L : layer) : layer := l_set_width (with_lines L (col_insert col (l_lines L))) (l_w L + 1).
+
+Lemma raw_col_uninsert col lines x y :
+  raw (col_uninsert col lines) x y = match col with Some c => if (x <? c)%nat then raw lines x y else raw lines (S x) y | None => raw lines x y end.
+Proof.
+  destruct col as [c|]; [|reflexivity]. cbn [col_uninsert]. rewrite !raw_cell_at, nth_error_map. unfold line in *.
+  destruct (nth_error lines y) as [r|]; cbn [option_map]; [apply cell_at_remove_at|destruct (x <? c)%nat; reflexivity].
+Qed.
+
+Lemma raw_col_insert col lines x y :
+  raw (col_insert col lines) x y =
+  match col with Some c => if (x <? c)%nat then raw lines x y else if (x =? c)%nat then invisible else raw lines (pred x) y | None => raw lines x y end.
+Proof.
+  destruct col as [c|]; [|reflexivity]. cbn [col_insert]. rewrite !raw_cell_at, nth_error_map. unfold line in *.
+  destruct (nth_error lines y) as [r|]; cbn [option_map]; [|destruct (x <? c)%nat; [reflexivity|destruct (x =? c)%nat; reflexivity]].
+  destruct (c <=? length r)%nat eqn:E.
+  - apply Nat.leb_le in E. apply cell_at_insert_at. exact E.
+  - apply Nat.leb_gt in E. destruct (x <? c)%nat eqn:E1; [reflexivity|]. apply Nat.ltb_ge in E1.
+    destruct (x =? c)%nat eqn:E2; [apply cell_at_ge; lia|]. apply Nat.eqb_neq in E2. rewrite !cell_at_ge by lia. reflexivity.
+Qed.
+
+Lemma del_col_raw col L x y :
+  rawL (del_col col L) x y = match col with Some c => if (x <? c)%nat then rawL L x y else rawL L (S x) y | None => rawL L x y end.
+Proof. unfold del_col, rawL. cbn [l_lines l_set_width with_size with_lines]. apply raw_col_uninsert. Qed.
+Lemma ins_col_raw col L x y :
+  rawL (ins_col col L) x y =
+  match col with Some c => if (x <? c)%nat then rawL L x y else if (x =? c)%nat then invisible else rawL L (pred x) y | None => rawL L x y end.
+Proof. unfold ins_col, rawL. cbn [l_lines l_set_width with_size with_lines]. apply raw_col_insert. Qed.
+Lemma del_col_meta col L : meta (del_col col L) = meta_w L (l_w L - 1).
+Proof. reflexivity. Qed.
+Lemma ins_col_meta col L : meta (ins_col col L) = meta_w L (l_w L + 1).
+Proof. reflexivity. Qed.
+
+Lemma del_col_leqv col L1 L2 : leqv L1 L2 -> leqv (del_col col L1) (del_col col L2).
+Proof.
+  intros [Hm Hr]. split.
+  - rewrite !del_col_meta. apply meta_w_eq; [exact Hm|]. rewrite (meta_l_w _ _ Hm). reflexivity.
+  - intros x y. rewrite !del_col_raw. destruct col; rewrite !Hr; reflexivity.
+Qed.
+Lemma ins_col_leqv col L1 L2 : leqv L1 L2 -> leqv (ins_col col L1) (ins_col col L2).
+Proof.
+  intros [Hm Hr]. split.
+  - rewrite !ins_col_meta. apply meta_w_eq; [exact Hm|]. rewrite (meta_l_w _ _ Hm). reflexivity.
+  - intros x y. rewrite !ins_col_raw. destruct col; rewrite !Hr; reflexivity.
+Qed.
+
+Lemma del_ins_col col L : leqv (del_col col (ins_col col L)) L.
+Proof.
+  split.
+  - destruct L. unfold meta. cbn. repeat f_equal; lia.
+  - intros x y. rewrite del_col_raw. destruct col as [c|]; rewrite !ins_col_raw; [|reflexivity].
+    destruct (x <? c)%nat eqn:E1; [reflexivity|]. apply Nat.ltb_ge in E1.
+    replace (S x <? c)%nat with false by (symmetry; apply Nat.ltb_ge; lia).
+    replace (S x =? c)%nat with false by (symmetry; apply Nat.eqb_neq; lia). reflexivity.
+Qed.
+
+(* InsertColumn carries no payload *)
+Definition P_inscol (o : xuop) (a b : xstate) : Prop :=
+  exists i col L, o = XInsertColumn i col /\ nth_error (xlayers a) i = Some L /\ xeqv b (upd_x a i (ins_col (col_index col))).
+
+Lemma inscol_stable : xstable P_inscol.
+Proof.
+  intros o a b (i & col & L & -> & Hn & Hb). split; intros t Ht.
+  - pose proof (xeqv_trans _ _ _ Ht Hb) as Htb.
+    destruct (xeqv_has_layer t _ i _ Htb (upd_x_has a i _ L Hn)) as (Lt & Hnt & _).
+    cbn [xop_undo]. rewrite Hnt. eexists. split; [reflexivity|].
+    change (xeqv (upd_x t i (fun _ => del_col (col_index col) Lt)) a). rewrite (upd_x_const t i (del_col (col_index col)) Lt Hnt).
+    eapply xeqv_trans; [apply (xeqv_upd_xlayer _ _ i _ (del_col (col_index col)) Htb); intros L1 L2 HL; apply del_col_leqv; exact HL|].
+    fold (upd_x (upd_x a i (ins_col (col_index col))) i (del_col (col_index col))). rewrite upd_x_twice. apply xeqv_upd_xlayer_id.
+    intros L' _. apply del_ins_col.
+  - destruct (xeqv_has_layer t _ i _ Ht Hn) as (Lt & Hnt & _).
+    cbn [xop_redo]. rewrite Hnt. eexists. split; [reflexivity|].
+    change (xeqv (upd_x t i (fun _ => ins_col (col_index col) Lt)) b). rewrite (upd_x_const t i (ins_col (col_index col)) Lt Hnt).
+    eapply xeqv_trans; [|apply xeqv_sym; exact Hb]. apply xeqv_upd_xlayer; [exact Ht|]. intros L1 L2 HL. apply ins_col_leqv. exact HL.
+Qed.
+
+(* DeleteColumn::undo as a function of the rows *)
+Fixpoint reins (c : nat) (deleted : list (option cell)) (lines : list line) : list line :=
+  match deleted, lines with
+  | d :: dt, row :: lt => (match d with Some ch => insert_at c ch (resize_to row c invisible) | None => row end) :: reins c dt lt
+  | _, _ => lines
+  end.
+
+Lemma resize_row_length (row : line) c : (c <= length (resize_to row c invisible))%nat.
+Proof. apply resize_to_length. Qed.
+
+(* the panic sites of col_reinsert cannot fire once `lines` holds a row for every entry of the payload *)
+Lemma col_reinsert_ok c : forall deleted lines, (length deleted <= length lines)%nat -> col_reinsert (Some c) deleted lines = Ok (reins c deleted lines).
+Proof.
+  induction deleted as [|d dt IH]; intros lines H; [destruct lines; reflexivity|].
+  destruct lines as [|row lt]; [cbn in H; lia|]. cbn [col_reinsert reins]. cbn [length] in H.
+  rewrite (IH lt) by lia. destruct d as [ch|]; cbn [col_reinsert_row bind]; [|reflexivity].
+  unfold vec_insert. replace (c <=? length (resize_to row c invisible))%nat with true by (symmetry; apply Nat.leb_le; apply resize_row_length).
+  reflexivity.
+Qed.
+
+Lemma col_reinsert_nothing col : forall deleted lines, Forall (fun d => d = None) deleted -> col_reinsert col deleted lines = Ok lines.
+Proof.
+  induction deleted as [|d dt IH]; intros lines H; [reflexivity|]. inversion H as [|? ? Hd Ht]; subst.
+  destruct lines as [|row lt]; cbn [col_reinsert col_reinsert_row bind]; [apply IH; exact Ht|]. rewrite (IH lt Ht). reflexivity.
+Qed.
+
+Lemma raw_reins c : forall deleted lines x y, (length deleted <= length lines)%nat ->
+  raw (reins c deleted lines) x y =
+  match nth_error deleted y with
+  | Some (Some ch) => if (x <? c)%nat then raw lines x y else if (x =? c)%nat then ch else raw lines (pred x) y
+  | _ => raw lines x y
+  end.
+Proof.
+  induction deleted as [|d dt IH]; intros lines x y H; [destruct y; destruct lines; reflexivity|].
+  destruct lines as [|row lt]; [cbn in H; lia|]. cbn [reins]. cbn [length] in H. destruct y as [|y].
+  - cbn [nth_error]. rewrite !raw_cell_at. cbn [nth_error]. destruct d as [ch|]; [|reflexivity].
+    rewrite cell_at_insert_at by apply resize_row_length. rewrite !cell_at_resize. reflexivity.
+  - cbn [nth_error]. rewrite !raw_cell_at. cbn [nth_error]. rewrite <- !raw_cell_at. apply IH. lia.
+Qed.
+
+Definition reins_lines (col : option nat) (deleted : list (option cell)) (lines : list line) : list line :=
+  match col with
+  | Some c => reins c deleted (@resize_to line lines (length deleted) [])
+  | None => @resize_to line lines (length deleted) []
+  end.
+Definition reins_col (col : option nat) (deleted : list (option cell)) (L : layer) : layer :=
+  l_set_width (with_lines L (reins_lines col deleted (l_lines L))) (l_w L + 1).
+
+(* no entry of the payload of a negative column holds a cell *)
+Definition no_cells (col : option nat) (deleted : list (option cell)) : Prop := col = None -> Forall (fun d => d = None) deleted.
+
+Lemma col_reinsert_resized col deleted (lines : list line) : no_cells col deleted ->
+  col_reinsert col deleted (@resize_to line lines (length deleted) []) = Ok (reins_lines col deleted lines).
+Proof.
+  intro Hnc. unfold reins_lines. destruct col as [c|].
+  - apply col_reinsert_ok. apply resize_to_length.
+  - apply col_reinsert_nothing. apply Hnc. reflexivity.
+Qed.
+
+Lemma reins_col_raw col deleted L x y :
+  rawL (reins_col col deleted L) x y =
+  match col, nth_error deleted y with
+  | Some c, Some (Some ch) => if (x <? c)%nat then rawL L x y else if (x =? c)%nat then ch else rawL L (pred x) y
+  | _, _ => rawL L x y
+  end.
+Proof.
+  unfold reins_col, rawL, reins_lines. cbn [l_lines l_set_width with_size with_lines]. destruct col as [c|]; [|apply raw_resize_to].
+  rewrite raw_reins by apply resize_to_length. rewrite !raw_resize_to. reflexivity.
+Qed.
+Lemma reins_col_meta col deleted L : meta (reins_col col deleted L) = meta_w L (l_w L + 1).
+Proof. reflexivity. Qed.
+
+Lemma reins_col_leqv col deleted L1 L2 : leqv L1 L2 -> leqv (reins_col col deleted L1) (reins_col col deleted L2).
+Proof.
+  intros [Hm Hr]. split.
+  - rewrite !reins_col_meta. apply meta_w_eq; [exact Hm|]. rewrite (meta_l_w _ _ Hm). reflexivity.
+  - intros x y. rewrite !reins_col_raw, !Hr. reflexivity.
+Qed.
+
+(* what the payload of DeleteColumn says about the layer it was taken from: entry y holds the cell of column c in row y, or, when it
+   holds none, row y has no visible cell from column c on *)
+Definition payload_ok (col : option nat) (deleted : list (option cell)) (L : layer) : Prop :=
+  no_cells col deleted /\
+  forall c, col = Some c -> forall y,
+    match nth_error deleted y with
+    | Some (Some ch) => ch = rawL L c y
+    | _ => forall x, (c <= x)%nat -> rawL L x y = invisible
+    end.
+
+Lemma reins_del_col col deleted L : payload_ok col deleted L -> leqv (reins_col col deleted (del_col col L)) L.
+Proof.
+  intros [_ Hp]. split.
+  - destruct L. unfold meta. cbn. repeat f_equal; lia.
+  - intros x y. rewrite reins_col_raw. destruct col as [c|]; [|rewrite del_col_raw; reflexivity].
+    specialize (Hp c eq_refl y). rewrite !del_col_raw. destruct (nth_error deleted y) as [[ch|]|].
+    + destruct (x <? c)%nat eqn:E1; [reflexivity|]. apply Nat.ltb_ge in E1.
+      destruct (x =? c)%nat eqn:E2; [apply Nat.eqb_eq in E2; subst x; exact Hp|]. apply Nat.eqb_neq in E2.
+      replace (pred x <? c)%nat with false by (symmetry; apply Nat.ltb_ge; lia). f_equal. lia.
+    + destruct (x <? c)%nat eqn:E1; [reflexivity|]. apply Nat.ltb_ge in E1. rewrite !Hp by lia. reflexivity.
+    + destruct (x <? c)%nat eqn:E1; [reflexivity|]. apply Nat.ltb_ge in E1. rewrite !Hp by lia. reflexivity.
+Qed.
+
+(* the payload DeleteColumn::redo captures describes the layer it is taken from *)
+Lemma col_delete_payload col L : payload_ok col (fst (col_delete col (l_lines L))) L.
+Proof.
+  split.
+  - intros ->. cbn [col_delete fst]. apply Forall_forall. intros d Hd. apply in_map_iff in Hd. destruct Hd as (r & <- & _). reflexivity.
+  - intros c -> y. cbn [col_delete fst]. rewrite nth_error_map. unfold rawL, raw. unfold line in *.
+    destruct (@nth_error (list cell) (l_lines L) y) as [r|] eqn:Er; cbn [option_map].
+    + destruct (nth_error r c) as [ch|] eqn:Ec; cbv beta iota.
+      * reflexivity.
+      * intros x Hx. apply nth_error_None in Ec. assert (nth_error r x = None) as -> by (apply nth_error_None; lia). reflexivity.
+    + intros x _. reflexivity.
+Qed.
+
+Lemma payload_ok_leqv col deleted L1 L2 : leqv L1 L2 -> payload_ok col deleted L1 -> payload_ok col deleted L2.
+Proof.
+  intros [_ Hr] [Hn Hp]. split; [exact Hn|]. intros c Hc y. specialize (Hp c Hc y).
+  destruct (nth_error deleted y) as [[ch|]|]; [rewrite <- Hr; exact Hp|intros x Hx; rewrite <- Hr; apply Hp; exact Hx|intros x Hx; rewrite <- Hr; apply Hp; exact Hx].
+Qed.
+
+Definition U_delcol (o : xuop) (a b : xstate) : Prop :=
+  exists i col deleted L, o = XDeleteColumn i col deleted /\ nth_error (xlayers a) i = Some L /\ payload_ok (col_index col) deleted L /\
+    xeqv b (upd_x a i (del_col (col_index col))).
+Definition R_delcol (o : xuop) (a b : xstate) : Prop :=
+  exists i col pay L, o = XDeleteColumn i col pay /\ nth_error (xlayers a) i = Some L /\ xeqv b (upd_x a i (del_col (col_index col))).
+
+Lemma delcol_closed : xlclosed U_delcol R_delcol.
+Proof.
+  split.
+  - intros o a b (i & col & deleted & L & -> & Hn & Hp & Hb) t Ht. set (cl := col_index col) in *.
+    pose proof (xeqv_trans _ _ _ Ht Hb) as Htb.
+    destruct (xeqv_has_layer t _ i _ Htb (upd_x_has a i _ L Hn)) as (Lt & Hnt & _).
+    cbn [xop_undo]. rewrite Hnt. fold cl. rewrite (col_reinsert_resized cl deleted (l_lines Lt) (proj1 Hp)). cbn [bind].
+    eexists _, _. split; [reflexivity|]. split.
+    + change (xeqv (upd_x t i (fun _ => reins_col cl deleted Lt)) a). rewrite (upd_x_const t i (reins_col cl deleted) Lt Hnt).
+      eapply xeqv_trans; [apply (xeqv_upd_xlayer _ _ i _ (reins_col cl deleted) Htb); intros L1 L2 HL; apply reins_col_leqv; exact HL|].
+      fold (upd_x (upd_x a i (del_col cl)) i (reins_col cl deleted)). rewrite upd_x_twice. apply xeqv_upd_xlayer_id.
+      intros L' HL'. assert (L' = L) by (unfold xlayers in *; congruence). subst L'. apply reins_del_col. exact Hp.
+    + exists i, col, deleted, L. auto.
+  - intros o a b (i & col & pay & L & -> & Hn & Hb) t Ht. set (cl := col_index col) in *.
+    destruct (xeqv_has_layer t _ i _ Ht Hn) as (Lt & Hnt & HLt).
+    cbn [xop_redo]. rewrite Hnt. fold cl. destruct (col_delete cl (l_lines Lt)) as [deleted lines] eqn:Ed.
+    assert (El : lines = col_uninsert cl (l_lines Lt)) by (rewrite <- snd_col_delete, Ed; reflexivity).
+    assert (Edel : deleted = fst (col_delete cl (l_lines Lt))) by (rewrite Ed; reflexivity).
+    eexists _, _. split; [reflexivity|]. split.
+    + rewrite El. change (xeqv (upd_x t i (fun _ => del_col cl Lt)) b). rewrite (upd_x_const t i (del_col cl) Lt Hnt).
+      eapply xeqv_trans; [|apply xeqv_sym; exact Hb]. apply xeqv_upd_xlayer; [exact Ht|]. intros L1 L2 HL. apply del_col_leqv. exact HL.
+    + exists i, col, deleted, L. split; [reflexivity|]. split; [exact Hn|]. split; [|exact Hb].
+      fold cl. rewrite Edel. eapply payload_ok_leqv; [exact HLt|]. apply col_delete_payload.
+Qed.
+
+(* ------------------------------------------------------------------ the code before the fix commit *)
+(* DeleteRow::undo before the fix: `layer.lines.insert(self.line as usize, deleted_row)` on whatever rows are stored *)
+Definition old_delete_row_undo (i : nat) (line : Z) (row : EditModel.line) (s : xstate) : res (xuop * xstate) :=
+  match nth_error (xlayers s) i with
+  | Some L =>
+    do n <- as_index line;
+    do lines <- vec_insert n row (l_lines L);
+    Ok (XDeleteRow i line [], with_xb s (upd_layer (xb s) i (fun _ => l_set_height (with_lines L lines) (l_h L + 1))))
+  | None => Err 1
+  end.
+
+(* a: a 3x3 layer whose three rows are stored; delete row 2 gives b; t stores no rows beyond the first but holds the same cells as b
+   (rows 1.. of b are invisible): the old undo panics in Vec::insert, the repaired one restores the document *)
 Definition rc_cell : cell := mkCell 65 7 0 0 0.
 Definition rc_layer (lines : list line) (h : Z) : layer := mkLayer 0 true false false false false 0 0 0 3 h (10, 0)%N lines.
 Definition rc_state (lines : list line) (h : Z) : xstate :=
@@ -127,17 +502,17 @@ Ltac crush_raw :=
   intros x y; unfold rawL, raw; cbn [l_lines rc_layer];
   do 4 (try (destruct y as [|y]; cbn [nth_error])); do 3 (try (destruct x as [|x]; cbn [nth_error])); reflexivity.
 
-Theorem rowcol_not_invariant_proof :
-  exists a o1 b t,
+Theorem rowcol_before_fix_refuted_proof :
+  exists a b t,
     a = rc_state [[rc_cell]; []; []] 3 /\
-    xop_redo (XDeleteRow 0 2 []) a = Ok (o1, b) /\ xeqv t b /\
-    (exists o2 a', xop_undo o1 b = Ok (o2, a') /\ xeqv a' a) /\
-    xop_undo o1 t = Panic 40.
+    xop_redo (XDeleteRow 0 2 []) a = Ok (XDeleteRow 0 2 [], b) /\ xeqv t b /\
+    old_delete_row_undo 0 2 [] t = Panic 40 /\
+    (exists o2 a', xop_undo (XDeleteRow 0 2 []) t = Ok (o2, a') /\ xeqv a' a).
 Proof.
-  exists (rc_state [[rc_cell]; []; []] 3). eexists _, _, (rc_state [[rc_cell]] 2). split; [reflexivity|].
+  exists (rc_state [[rc_cell]; []; []] 3). eexists _, (rc_state [[rc_cell]] 2). split; [reflexivity|].
   split; [vm_compute; reflexivity|]. split.
   - split; [|repeat split; try reflexivity; intro; reflexivity]. repeat split; try reflexivity. cbn. constructor; [|constructor]. split; [reflexivity|].
     crush_raw.
-  - split; [|vm_compute; reflexivity]. eexists _, _. split; [vm_compute; reflexivity|]. split; [|repeat split; try reflexivity; intro; reflexivity].
+  - split; [vm_compute; reflexivity|]. eexists _, _. split; [vm_compute; reflexivity|]. split; [|repeat split; try reflexivity; intro; reflexivity].
     repeat split; try reflexivity. cbn. constructor; [|constructor]. split; [reflexivity|]. crush_raw.
 Qed.
